@@ -112,56 +112,6 @@ const T0: u64 = 1_700_000_000_000_000_000;
 
 /// Mask the randomised root id wherever it occurs: whatever token the root <svg> carries as
 /// its id (the one permitted exception) is replaced throughout the output.
-/// The one permitted exception: the randomised id emitted when local styles are requested.
-/// Nothing about its format is assumed: the id is whatever token differs first between the
-/// two outputs, provided that in BOTH it is used as the local-style id - the root element's
-/// `id`, or a `#token {` selector inside the generated <style> block. Every occurrence of it
-/// is then replaced by one placeholder; any other difference remains a difference.
-fn mask_local_id_pair(a: &[u8], b: &[u8]) -> (Vec<u8>, Vec<u8>) {
-    if a == b {
-        return (a.to_vec(), b.to_vec());
-    }
-    let n = a.iter().zip(b.iter()).take_while(|(x, y)| x == y).count();
-    let is_tok = |c: u8| c.is_ascii_alphanumeric() || c == b'-' || c == b'_';
-    let token_at = |t: &[u8]| -> Option<String> {
-        let mut lo = n.min(t.len());
-        while lo > 0 && is_tok(t[lo - 1]) {
-            lo -= 1;
-        }
-        let mut hi = n.min(t.len());
-        while hi < t.len() && is_tok(t[hi]) {
-            hi += 1;
-        }
-        if hi - lo >= 6 {
-            String::from_utf8(t[lo..hi].to_vec()).ok()
-        } else {
-            None
-        }
-    };
-    let (Some(ta), Some(tb)) = (token_at(a), token_at(b)) else {
-        return (a.to_vec(), b.to_vec());
-    };
-    let is_local_id = |t: &[u8], tok: &str| -> bool {
-        let text = String::from_utf8_lossy(t);
-        let root = text.find("<svg").map(|p| {
-            let end = text[p..].find('>').map(|e| p + e).unwrap_or(text.len());
-            text[p..end].contains(&format!(" id=\"{tok}\""))
-        });
-        let style = text.find("<style").map(|p| {
-            let end = text[p..].find("</style>").map(|e| p + e).unwrap_or(text.len());
-            let st = &text[p..end];
-            st.contains(&format!("#{tok} {{")) || st.contains(&format!("#{tok}{{"))
-        });
-        root == Some(true) || style == Some(true)
-    };
-    if ta == tb || !is_local_id(a, &ta) || !is_local_id(b, &tb) {
-        return (a.to_vec(), b.to_vec());
-    }
-    let ma = String::from_utf8_lossy(a).replace(&ta, "LOCAL-STYLE-ID").into_bytes();
-    let mb = String::from_utf8_lossy(b).replace(&tb, "LOCAL-STYLE-ID").into_bytes();
-    (ma, mb)
-}
-
 fn region_of_difference(a: &[u8], b: &[u8]) -> &'static str {
     let n = a.iter().zip(b.iter()).take_while(|(x, y)| x == y).count();
     let head = String::from_utf8_lossy(&a[..n.min(a.len())]).into_owned();
@@ -282,14 +232,14 @@ impl Engine for C06 {
         let children = match tier {
             Tier::Quick => {
                 if index % 4 == 1 {
-                    3
+                    4
                 } else {
                     0
                 }
             }
             Tier::Thorough => {
                 if index % 2 == 1 {
-                    4
+                    5
                 } else {
                     0
                 }
@@ -324,7 +274,8 @@ impl Engine for C06 {
                     0 => "child-file",
                     1 => "child-stdin",
                     2 => "child-file-out",
-                    _ => "child-stdin",
+                    3 => "child-stdin",
+                    _ => "child-file",
                 }
                 .into(),
                 entropy: e.next_u64(),
@@ -369,7 +320,8 @@ impl Engine for C06 {
                 return res;
             }
         };
-        let local = scn.cfg.use_local_styles;
+        // local styles can be requested by the configuration or by the document itself
+        let local = scn.cfg.use_local_styles || scn.doc.0.windows(16).any(|w| w == b"use-local-styles");
         // (kind, entropy, clock, outcome)
         let mut obs: Vec<(String, u64, u64, Outcome)> = Vec::new();
         let run_dir = env.scratch.join("c06");
@@ -592,7 +544,8 @@ impl Engine for C06 {
         let mut first_child_err: BTreeMap<String, (String, String)> = BTreeMap::new();
         for (k, _e, _c, o) in obs.iter() {
             if let (true, Outcome::Err(text)) = (k.starts_with("child"), o) {
-                let family = "child".to_string();
+                // (a message may name the input: commands are compared with commands fed the same way)
+                let family = k.split('#').next().unwrap_or("child").to_string();
                 match first_child_err.get(&family) {
                     None => {
                         first_child_err.insert(family, (k.clone(), text.clone()));
@@ -616,7 +569,8 @@ impl Engine for C06 {
                 let is_child = k.starts_with("child") || k.starts_with("server");
                 match (&first, o) {
                     (Outcome::Ok(a), Outcome::Ok(b)) => {
-                        let (a, b) = if local && *c != c0 {
+                        let _ = (c, c0);
+                        let (a, b) = if local && a != b {
                             res.stats.probe("local_id_masked_compare");
                             mask_local_id_pair(a, b)
                         } else {
